@@ -470,6 +470,37 @@ func cmdCheck(repo, verif, prop, tier, only string) int {
 		wg.Wait()
 	}
 
+	// counterexample refinement: a model found under the abstractMul
+	// over-approximation is looked for again with the precise encoding
+	for _, h := range results {
+		if h.Params["abstractMul"] != 1 || len(h.Result.Findings) == 0 {
+			continue
+		}
+		p2 := map[string]int{}
+		for k, v := range h.Params {
+			p2[k] = v
+		}
+		p2["abstractMul"] = 0
+		h2 := &HarnessRun{Name: h.Name, Pkg: h.Pkg, Mode: h.Mode, Params: p2, Tier: h.Tier, Instance: h.Instance,
+			timeoutMS: 30000, maxWallS: 600, workers: 8}
+		eng.Explore(h2)
+		fmt.Printf("  %-30s %-24s (precise re-run after abstract counterexample) paths=%d findings=%d unk=%d wall=%.1fs\n",
+			h.Name, h.Instance, h2.Result.Paths, len(h2.Result.Findings), h2.Result.UnknownQ, h2.Result.WallS)
+		r, r2 := &h.Result, &h2.Result
+		r.Paths += r2.Paths
+		r.Instrs += r2.Instrs
+		r.Queries += r2.Queries
+		r.Unsat += r2.Unsat
+		r.Sat += r2.Sat
+		r.SolverS += r2.SolverS
+		if len(r2.Findings) > 0 {
+			for i := range r2.Findings {
+				r2.Findings[i].Params = h.Params
+			}
+			r.Findings = r2.Findings
+		}
+	}
+
 	known := loadKnown(verif)
 	outDir := filepath.Join(envOr("VERIF_OUT", filepath.Join(verif, "out")), prop)
 	os.MkdirAll(outDir, 0755)
